@@ -35,6 +35,7 @@ MIN_REACH = {
     "lazy_loads": {"quick": 60, "thorough": 1000},
     "merge_twice": {"quick": 50, "thorough": 800},
     "merges_adding_fractional_labels_to_integer_axis": {"quick": 4, "thorough": 60},
+    "merges_adding_longer_labels_to_a_string_axis": {"quick": 3, "thorough": 50},
     "listings_checked": {"quick": 500, "thorough": 8000},
     "harvester_name_checks": {"quick": 50, "thorough": 800},
 }
@@ -203,6 +204,13 @@ def run_case(ctx, case):
                     part2 = sub_f.isel({split: slice(1, None)})
                     sub = sub_f
                     ctx.count("merges_adding_fractional_labels_to_integer_axis")
+                if case["coordt"][split] == "str" and case["dseed"] % 3 == 0:
+                    # ... or short labels first and longer ones with the second save
+                    newc = np.array([str(v) if i == 0 else str(v) + "_longer" for i, v in enumerate(sub[split].values.tolist())])
+                    sub_f = sub.assign_coords({split: newc})
+                    part2 = sub_f.isel({split: slice(1, None)})
+                    sub = sub_f
+                    ctx.count("merges_adding_longer_labels_to_a_string_axis")
                 kw = {} if engine == "h5netcdf" and case["dseed"] % 2 else {"engine": engine}
                 if engine == "joblib":
                     kw = {"engine": "joblib"}
